@@ -94,6 +94,12 @@ Theorem C08_child_priors_renormalised : forall cutoff n ks,
   n_probs n = renorm (map c_prior (accepted cutoff (n_pos n) (n_raw n))) /\
   map n_key ks = map c_key (accepted cutoff (n_pos n) (n_raw n)).
 Proof. exact child_priors_renormalised. Qed.
+(* ... renorm divides every entry by the sum of the entries *)
+Theorem C08_renorm_is_division : forall l,
+  length (renorm l) = length l /\
+  forall i x, nth_error l i = Some x ->
+              exists y, nth_error (renorm l) i = Some y /\ y == x / sumq l.
+Proof. exact renorm_spec. Qed.
 (* ... where the ghost field n_raw is what the evaluator answered (mixed with
    the noise at the root) when the node was expanded *)
 Theorem C08_expansion_records_evaluator : forall cutoff mix p m noise e evs,
